@@ -3,7 +3,7 @@
     (tree with every position, error locations), and run the Spec oracle on the observed result.
     Executable only (extracted / vm_compute). *)
 From Coq Require Import List NArith ZArith Bool String.
-From ApiFu Require Import Base.Sexp Syn.Ast Syn.ParserModel Syn.Printer.
+From ApiFu Require Import Base.Sexp Syn.Ast Syn.ParserModel Syn.Printer Syn.FrontEnd Syn.PositionMethods.
 Import ListNotations.
 Local Open Scope string_scope.
 
@@ -304,13 +304,31 @@ Definition dec_stoken (s : sexp) : option stoken :=
   | _ => None
   end.
 
+(* l1 c1 l2 c2 ... ; tail recursive: the list has two entries per node of the tree *)
+Fixpoint dec_pos_pairs_acc (fuel : nat) (l : list sexp) (acc : list pos) : option (list pos) :=
+  match l with
+  | [] => Some (rev' acc)
+  | a :: b :: r =>
+      match fuel with
+      | O => None
+      | S f => match dec_pos a b with
+               | Some p => dec_pos_pairs_acc f r (p :: acc)
+               | None => None
+               end
+      end
+  | _ => None
+  end.
+Definition dec_pos_pairs (fuel : nat) (l : list sexp) : option (list pos) := dec_pos_pairs_acc fuel l [].
+
 (** ** the observation of one run of the real parser on one source text *)
 Record run := mkrun {
   r_lines : N;                      (* number of line terminators in the text *)
   r_toks : list stoken;             (* what the real scanner handed out *)
   r_eof : pos; r_eof_errs : list pos;
   r_tree : option sexp;             (* None: nil *)
-  r_errs : list pos }.              (* Error.Location of every returned error, in order *)
+  r_errs : list pos;                (* Error.Location of every returned error, in order *)
+  r_src : option bytes;             (* the source text itself *)
+  r_posm : option (list pos) }.     (* Position() of every node of the returned tree, pre-order *)
 
 Definition dec_run (s : sexp) : option run :=
   match tagged "run" s with
@@ -320,7 +338,9 @@ Definition dec_run (s : sexp) : option run :=
           opt_bind (as_N n) (fun n' => opt_bind (map_opt dec_stoken ts) (fun ts' =>
           opt_bind (dec_pos el ec) (fun e => opt_bind (map_opt dec_err ees) (fun ees' =>
           opt_bind (map_opt dec_err oes) (fun oes' =>
-          Some (mkrun n' ts' e ees' (if is_sym "nil" tree then None else Some tree) oes'))))))
+          Some (mkrun n' ts' e ees' (if is_sym "nil" tree then None else Some tree) oes'
+                      (match field1 "src" l with Some (SStr b) => Some b | _ => None end)
+                      (match field1 "posm" l with Some (SL ps) => dec_pos_pairs (List.length ps) ps | _ => None end)))))))
       | _, _, _, _ => None
       end
   | None => None
@@ -358,28 +378,29 @@ Definition unpos (e : etok) : etok := mket (ek e) (ev e) None.
 Inductive entry := EDoc | EValue.
 
 Record tree_facts := mkfacts {
-  tf_tokens : list etok; tf_wf : bool; tf_depth : Z; tf_positions : list pos }.
+  tf_tokens : list etok; tf_wf : bool; tf_depth : Z; tf_positions : list pos; tf_pm : list pos }.
 
 Definition facts_of (e : entry) (tree : sexp) : option tree_facts :=
   match e with
   | EDoc => opt_bind (dec_document tree) (fun d =>
               if sexp_eqb (enc_document d) tree
-              then Some (mkfacts (tokens_document d) (wf_document d) (depth_document d) (positions_document d))
+              then Some (mkfacts (tokens_document d) (wf_document d) (depth_document d) (positions_document d) (pm_document d))
               else None)
   | EValue => opt_bind (dec_value (sexp_size tree) tree) (fun v =>
               if sexp_eqb (enc_value v) tree
-              then Some (mkfacts (tokens_value v) (wf_value false v) (depth_value v) [])
+              then Some (mkfacts (tokens_value v) (wf_value false v) (depth_value v) [] (pm_value v))
               else None)
   end.
 
 Definition line_ok (lines : N) (p : pos) : bool := N.leb 1 (line p) && N.leb (line p) (lines + 1).
 
-Definition oracle_run (e : entry) (r : run) : option string :=
+Definition oracle_run (e : entry) (rf : run * option tree_facts) : option string :=
+  let r := fst rf in
   let toks := map st_tok (r_toks r) in
   match r_tree r, r_errs r with
   | Some tree, [] =>
       (* accepted *)
-      match facts_of e tree with
+      match snd rf with
       | None => Some "accepted-malformed-tree"
       | Some f =>
           if negb (forallb (fun t => match st_errs t with [] => true | _ => false end) (r_toks r)
@@ -449,23 +470,102 @@ Definition model_run (e : entry) (r : run) : option (option sexp * list pos) :=
   | EValue => enc_outcome enc_value (ParseValue (r_eof r) (r_eof_errs r) (r_toks r))
   end.
 
+(** the composed model from the BYTES of the text (FrontEnd.v: scanner model, then parser model) *)
+Definition model_run_bytes (e : entry) (src : bytes) : option (option sexp * list pos) :=
+  match e with
+  | EDoc => enc_outcome enc_document (parse_document_bytes src)
+  | EValue => enc_outcome enc_value (parse_value_bytes src)
+  end.
+
+Definition stoken_eqb (a b : stoken) : bool :=
+  kind_eqb (tk (st_tok a)) (tk (st_tok b)) && bytes_eqb (tv (st_tok a)) (tv (st_tok b)) &&
+  pos_eqb (tp (st_tok a)) (tp (st_tok b)) && pos_list_eqb (st_errs a) (st_errs b).
+
+Fixpoint stokens_eqb (a b : list stoken) : bool :=
+  match a, b with
+  | [], [] => true
+  | x :: a', y :: b' => stoken_eqb x y && stokens_eqb a' b'
+  | _, _ => false
+  end.
+
+(** the stream the front-end model computes from the bytes against what the real scanner handed
+    out, Scan call by Scan call (kind, value, position, the errors of that call; end position and
+    final errors) *)
+Definition front_matches (src : bytes) (r : run) : option bool :=
+  match front_end src with
+  | None => None
+  | Some f => Some (stokens_eqb (f_toks f) (r_toks r) && pos_eqb (f_eof f) (r_eof r) &&
+                    pos_list_eqb (f_eof_errs f) (r_eof_errs r))
+  end.
+
 Definition enc_errs (es : list pos) : sexp := SL (map (fun p => SL (enc_pos p)) es).
 
-Definition compare_run (e : entry) (r : run) : option sexp :=
-  match model_run e r with
-  | None => Some (v_mismatch "model-out-of-fuel" [])
+Definition compare_outcome (how : string) (m : option (option sexp * list pos)) (r : run) : option sexp :=
+  match m with
+  | None => Some (v_mismatch "model-out-of-fuel" [tag "model" [SSym how]])
   | Some (mt, mes) =>
       match mt, r_tree r with
       | Some x, Some y =>
           if negb (sexp_eqb x y) then
-            Some (v_mismatch (if sexp_eqb (strip x) (strip y) then "positions" else "tree") [tag "model" [x]])
-          else if negb (pos_list_eqb mes (r_errs r)) then Some (v_mismatch "error-locations" [tag "model" [enc_errs mes]])
+            Some (v_mismatch (if sexp_eqb (strip x) (strip y) then "positions" else "tree") [tag "model" [SSym how; x]])
+          else if negb (pos_list_eqb mes (r_errs r)) then Some (v_mismatch "error-locations" [tag "model" [SSym how; enc_errs mes]])
           else None
       | None, None =>
-          if negb (pos_list_eqb mes (r_errs r)) then Some (v_mismatch "error-locations" [tag "model" [enc_errs mes]])
+          if negb (pos_list_eqb mes (r_errs r)) then Some (v_mismatch "error-locations" [tag "model" [SSym how; enc_errs mes]])
           else None
-      | Some x, None => Some (v_mismatch "model-accepts-implementation-rejects" [tag "model" [enc_errs mes]])
-      | None, Some _ => Some (v_mismatch "model-rejects-implementation-accepts" [tag "model" [enc_errs mes]])
+      | Some x, None => Some (v_mismatch "model-accepts-implementation-rejects" [tag "model" [SSym how; enc_errs mes]])
+      | None, Some _ => Some (v_mismatch "model-rejects-implementation-accepts" [tag "model" [SSym how; enc_errs mes]])
+      end
+  end.
+
+(** [src] has at most [n] bytes (stops after [n] steps: sources can be megabytes long) *)
+Fixpoint within_nat (l : bytes) (n : nat) : bool :=
+  match l, n with
+  | [], _ => true
+  | _ :: _, O => false
+  | _ :: t, S m => within_nat t m
+  end.
+Definition within (limit : N) (src : bytes) : bool := within_nat src (N.to_nat limit).
+
+(** default of the case field [fblimit] *)
+Definition from_bytes_limit : N := 1024.
+
+(** the parser model on the real scanner's tokens; and, from the bytes, the scanner model against
+    the real scanner's stream and the composed model against the real parser's result *)
+(** the real Position() methods on the returned tree against the model's position functions on
+    the same tree *)
+Definition compare_posm (rf : run * option tree_facts) : option sexp :=
+  let r := fst rf in
+  match r_tree r, r_posm r with
+  | Some tree, Some ps =>
+      match snd rf with
+      | Some f => if pos_list_eqb (tf_pm f) ps then None
+                  else Some (v_mismatch "position-methods" [tag "model" [enc_errs (tf_pm f)]])
+      | None => None       (* a malformed tree is the oracle's business *)
+      end
+  | _, _ => None
+  end.
+
+Definition compare_run (e : entry) (limit : N) (rf : run * option tree_facts) : option sexp :=
+  let r := fst rf in
+  match compare_outcome "from-tokens" (model_run e r) r with
+  | Some v => Some v
+  | None =>
+      match compare_posm rf with
+      | Some v => Some v
+      | None =>
+      match r_src r with
+      | None => None
+      | Some src =>
+          (* the extracted scanner model costs about 5 microseconds per byte: texts above the
+             limit the harness sets for the tier are compared through their tokens only *)
+          if negb (within limit src) then None else
+          match front_matches src r with
+          | None => Some (v_mismatch "front-end-out-of-fuel" [])
+          | Some false => Some (v_mismatch "front-end-token-stream" [])
+          | Some true => compare_outcome "from-bytes" (model_run_bytes e src) r
+          end
+      end
       end
   end.
 
@@ -473,7 +573,7 @@ Definition compare_run (e : entry) (r : run) : option sexp :=
 Definition has_tok (v : bytes) (k : kind) (r : run) : bool :=
   existsb (fun t => kind_eqb (tk (st_tok t)) k && bytes_eqb (tv (st_tok t)) v) (r_toks r).
 
-Definition classes_run (e : entry) (r : run) : list string :=
+Definition classes_run (e : entry) (limit : N) (r : run) : list string :=
   let n := List.length (r_toks r) in
   let acc := accepted r in
   let lexerr := negb (forallb (fun t => match st_errs t with [] => true | _ => false end) (r_toks r))
@@ -483,6 +583,10 @@ Definition classes_run (e : entry) (r : run) : list string :=
   (match e with EDoc => ["document"] | EValue => ["value"] end) ++
   (if acc then ["accepted"] else ["rejected"]) ++
   (if lexerr then ["lexical-error"] else []) ++
+  (if existsb (fun t => Nat.leb 2 (List.length (st_errs t))) (r_toks r) || Nat.leb 2 (List.length (r_eof_errs r))
+   then ["several-errors-in-one-scan"] else []) ++
+  (match r_eof_errs r with [] => [] | _ => ["lexical-error-at-end"] end) ++
+  (if lexerr && match r_tree r with Some _ => true | None => false end then ["tree-beside-lexical-error"] else []) ++
   (if negb acc && negb lexerr then
      (if pos_eqb lastp (r_eof r) then ["error-at-eof"] else ["error-at-token"]) else []) ++
   (if acc && N.ltb 1 (line (r_eof r)) then ["multi-line"] else []) ++
@@ -493,6 +597,11 @@ Definition classes_run (e : entry) (r : run) : list string :=
   (if acc && has_tok b_bang KPunct r then ["non-null-types"] else []) ++
   (if acc && has_tok b_fragment KName r then ["kw-fragment"] else []) ++
   (if Nat.leb 1000 n then ["thousand-tokens"] else []) ++
+  (match r_tree r, r_posm r with Some _, Some (_ :: _) => ["position-methods-compared"] | _, _ => [] end) ++
+  (match r_src r with
+   | Some src => if negb (within limit src) then ["from-tokens-only"] else ["from-bytes"]
+   | None => ["from-tokens-only"]
+   end) ++
   (if acc || (negb lexerr && negb (pos_eqb lastp first)) then ["nontrivial"] else []).
 
 (** ** the case *)
@@ -508,9 +617,14 @@ Definition check (c : sexp) : sexp :=
       match field1 "entry" l, field1 "family" l, field "runs" l, field1 "expect" l with
       | Some en, Some (SSym fam), Some rs, Some ex =>
           let e := if is_sym "value" en then EValue else EDoc in
+          let limit := match field1 "fblimit" l with
+                       | Some x => match as_N x with Some n => n | None => from_bytes_limit end
+                       | None => from_bytes_limit
+                       end in
           match map_opt dec_run rs with
           | Some ((r0 :: _) as runs) =>
-              let o1 := first_some (oracle_run e) runs in
+              let rfs := map (fun r => (r, match r_tree r with Some t => facts_of e t | None => None end)) runs in
+              let o1 := first_some (oracle_run e) rfs in
               let o2 := match o1 with
                         | Some k => Some k
                         | None => if is_sym "none" ex then None
@@ -523,11 +637,11 @@ Definition check (c : sexp) : sexp :=
               match o3 with
               | Some k => v_oracle_fail k []
               | None =>
-                  match first_some (compare_run e) runs with
+                  match first_some (compare_run e limit) rfs with
                   | Some v => v
                   | None =>
                       let fams := if is_sym "none" ex then [fam] else [fam; "printed-tree"] in
-                      v_ok (fams ++ classes_run e r0 ++
+                      v_ok (fams ++ classes_run e limit r0 ++
                             (if is_sym "none" ex then [] else
                                match facts_of e ex with
                                | Some f => if Z.ltb max_recursion (tf_depth f) then ["beyond-recursion-limit"]
